@@ -20,6 +20,7 @@ EXTENDS Integers, Sequences, FiniteSets, TLC, SequencesExt
 
 CONSTANTS L,          \* box edge in lattice units
           Chains,     \* Seq of chain lengths (molecule m has residues 1..Chains[m])
+          Closed,     \* molecules that are rings: residue Chains[m] is also bonded to residue 1 (grown in the same order)
           Grid,       \* set of start points (lattice points)
           Bundle,     \* Seq of direction ids 1..6: the vector bundle given to update_positions
           MaxIter,    \* RandomWalk.maxiter: a placement gives up at the (MaxIter+1)-th rejected draw
@@ -36,7 +37,10 @@ Wrap(p) == IF Dev.noWrap THEN p ELSE <<Mod(p[1], L), Mod(p[2], L), Mod(p[3], L)>
 StepFrom(p, d) == Wrap(<<p[1] + Dir[d][1], p[2] + Dir[d][2], p[3] + Dir[d][3]>>)
 AllRes == UNION {{<<m, i>> : i \in 1..Chains[m]} : m \in 1..NMol}
 Sites == { pos[mi[1]][mi[2]] : mi \in AllRes } \ {None}
-Free(p) == Dev.noOverlapTest \/ Wrap(p) \notin { Wrap(q) : q \in Sites }
+\* a site is free iff NO positioned residue sits on it - bonded neighbours included (the ring-closing residue of a
+\* 3-ring can step back onto residue 1; Dev.neighboursExempt models a test that skips excluded neighbours)
+NeighbourSites == IF Dev.neighboursExempt /\ pc = "grow" /\ mol \in Closed /\ k = Chains[mol] THEN {pos[mol][1]} ELSE {}
+Free(p) == Dev.noOverlapTest \/ Wrap(p) \notin ({ Wrap(q) : q \in Sites } \ NeighbourSites)
 DropAt(s, i) == SubSeq(s, 1, i - 1) \o SubSeq(s, i + 1, Len(s))
 
 Init == /\ pos = [m \in 1..NMol |-> [i \in 1..Chains[m] |-> None]]
